@@ -58,6 +58,17 @@ func init() {
 			fc.tr.trusted["strings.EqualFold(a,b) is modelled as ToLower(a)==ToLower(b)"] = true
 			return []*Val{boolVal(eq("(str_lower "+a[0].E()+")", "(str_lower "+a[1].E()+")"))}
 		}},
+		"bytes.Equal": {apply: func(fc *fctx, a []*Val, _ token.Pos) []*Val {
+			// equal bytes denote equal JSON values; a well-formed text equals one of the keyword literals exactly when it
+			// denotes that keyword
+			tr := fc.tr
+			tr.jsonDecls()
+			r := fc.freshVal("beq", types.Typ[types.Bool])
+			ja, jb := "(jv "+a[0].E()+")", "(jv "+a[1].E()+")"
+			tr.assume(and(implies(r.E(), eq(ja, jb)),
+				implies(and("(jWF "+a[0].E()+")", "(jWF "+a[1].E()+")", or(eq(jb, "jTrue"), eq(jb, "jFalse"), eq(jb, "jNull")), eq(ja, jb)), r.E())))
+			return []*Val{r}
+		}},
 		"fmt.Errorf": {apply: func(fc *fctx, a []*Val, _ token.Pos) []*Val { return []*Val{errVal(fc, true)} }},
 		"errors.New": {apply: func(fc *fctx, a []*Val, _ token.Pos) []*Val { return []*Val{errVal(fc, true)} }},
 		"errors.Join": {apply: func(fc *fctx, a []*Val, _ token.Pos) []*Val { return []*Val{errVal(fc, false)} }},
